@@ -16,6 +16,23 @@ def _job(job):
     return ("ok", chem.canon(smi) if smi else "")
 
 
+def _tree_full(name):
+    """(Glycan(name).tree_full, residue names, edge labels) - the flag the walker accumulated"""
+    try:
+        from glyles import Glycan
+        import io
+        import contextlib
+        with contextlib.redirect_stdout(io.StringIO()), contextlib.redirect_stderr(io.StringIO()):
+            g = Glycan(name)
+        t = g.get_tree()
+        if t is None:
+            return None
+        return (bool(g.tree_full), [t.nodes[i]["type"].get_name(full=True) for i in range(len(t.nodes))],
+                [t.get_edge_data(a, b)["type"] for a, b in t.edges()])
+    except Exception:
+        return None
+
+
 def _all_tokens(name):
     """all recipe tokens of all residues as the real front-end reads the string (sorted), or None"""
     try:
@@ -164,6 +181,21 @@ def run(rep, tier, driver):
             if r != bt:
                 rep.violation("input", {"iupac": s, "full": False, "obstacle": kind, "without": base}, {"result": r}, {"result": bt, "note": "molecule without the unsupported modification"},
                               key="full-false-mod:" + s)
+    # the accumulation of `full` over the tree (C10_forest_full / C10_tree_full): tree_full of a connected glycan = every residue's own
+    # tree_full (the residue converted alone) and no '?' in any linkage label
+    gl = sorted({s for (i, role, full, kind, base), (s, _) in zip(meta, jobs) if kind != "fragment"})[: (150 if tier == "quick" else 2000)]
+    tf = dict(zip(gl, pmap(_tree_full, gl, chunk=4)))
+    residues = sorted({n for v in tf.values() if v for n in v[1]})
+    rf = dict(zip(residues, pmap(_tree_full, residues, chunk=8)))
+    for s0, v in tf.items():
+        if not v or any(rf.get(n) is None for n in v[1]):
+            continue
+        want = all(rf[n][0] for n in v[1]) and not any("?" in l for l in v[2])
+        rep.count("tree-full-accumulation")
+        rep.case(canon=["tree_full", s0], nontrivial=len(v[1]) > 1)
+        if v[0] != want:
+            rep.violation("input", {"iupac": s0, "what": "Glycan.tree_full"}, {"tree_full": v[0]},
+                          {"tree_full": want, "residues": {n: rf[n][0] for n in v[1]}, "labels": v[2]}, key="treefull:" + s0)
     # the gate itself against the Lean model
     if driver is not None:
         for to in (False, True):
